@@ -1035,8 +1035,38 @@ func c03Listen(c *core.Ctx, p c03Params) {
 		}
 		switch how {
 		case "shutdown":
+			if staleGate == nil {
+				// a callback is in flight when Shutdown is called, and it stays in flight until the
+				// closed handler that NATS runs for the connection Shutdown closes has come and gone:
+				// that call finds the service stopping on its own connection and must leave it alone
+				what["in_flight_callback"] = true
+				hg := sched.Arm("shutdown.enter", fromClosedConnCallback)
+				started := make(chan struct{})
+				if err := svc.With("svc.m.inflight", func(res.Resource) {
+					close(started)
+					if hg.WaitArrived(300 * time.Millisecond) {
+						c.Obs("closed_handler_during_drain", 1)
+					}
+					hg.Release()
+					time.Sleep(3 * time.Millisecond)
+					atomic.AddInt64(&executed, 1)
+				}); err != nil || !waitCh(started, 10*time.Second) {
+					hg.Release()
+					c.Inconclusive("in-flight callback did not start")
+					close(stop)
+					return
+				}
+			}
 			var serr error
-			if pn := try(func() { serr = svc.Shutdown() }); pn != nil {
+			var pn interface{}
+			sdone := make(chan struct{})
+			go func() { defer close(sdone); pn = try(func() { serr = svc.Shutdown() }) }()
+			if !waitCh(sdone, 20*time.Second) {
+				close(stop)
+				c.Violation("C03/shutdown-did-not-return:listen", "Shutdown of a service started with ListenAndServe did not return within 20 s (a callback was in flight when it was called)", what)
+				return
+			}
+			if pn != nil {
 				c.Violation("C03/panic:Shutdown:listen", fmt.Sprintf("Shutdown panicked: %v", pn), what)
 			} else if serr != nil {
 				c.Violation("C03/shutdown-error", "Shutdown of a service started with ListenAndServe returned: "+serr.Error(), what)
